@@ -164,6 +164,23 @@ def build() -> Tables:
     t.add("Magic", "tsTestMarkers", "List String",
           lambda: _ast_list_in_function(mod("src.linters.magic_numbers.linter").MagicNumberRule._is_test_file),
           [".test.", ".spec.", "test_", "_test.", "/tests/", "/test/"])
+    def def_name_patterns(kind):
+        import ast, inspect, textwrap
+        fn = mod("src.linters.magic_numbers.definition_detector")._matches_definition_filename
+        tree = ast.parse(textwrap.dedent(inspect.getsource(fn)))
+        out = []
+        for n in ast.walk(tree):
+            if kind == "suffix" and isinstance(n, ast.Call) and isinstance(n.func, ast.Attribute) and n.func.attr == "endswith":
+                out += [a.value for a in n.args if isinstance(a, ast.Constant) and isinstance(a.value, str)]
+            if kind == "exact" and isinstance(n, ast.Compare) and len(n.ops) == 1 and isinstance(n.ops[0], ast.Eq):
+                out += [c.value for c in n.comparators if isinstance(c, ast.Constant) and isinstance(c.value, str)]
+        if not out:
+            raise LookupError("no definition-file name patterns found")
+        return sorted(set(out))
+    t.add("Magic", "minUppercaseConstants", "Nat", lambda: mod("src.linters.magic_numbers.definition_detector").MIN_UPPERCASE_CONSTANTS, 10)
+    t.add("Magic", "minDictIntKeys", "Nat", lambda: mod("src.linters.magic_numbers.definition_detector").MIN_DICT_INT_KEYS, 5)
+    t.add("Magic", "definitionNameSuffixes", "List String", lambda: def_name_patterns("suffix"), ["_codes.py", "_constants.py"])
+    t.add("Magic", "definitionNameExact", "List String", lambda: def_name_patterns("exact"), ["constants.py"])
     # ---------------- CLI commands, rule ids, per-command filters, extension map (C15, C06, C10)
     cli_tables(t)
     return t
